@@ -52,6 +52,7 @@ class Ctx:
         self.angvals = {}        # numeric angle atom name -> (s SReal, c SReal)
         self.sign = {}           # atom name -> 'pos' | 'nonneg'
         self.no_fork = False
+        self.pibounds = {}       # angle atom -> (k_lo, k_hi, strict_lo, strict_hi): k_lo*pi <= atom <= k_hi*pi
         self.radicand_of = {}    # polynomial -> name of its sqrt atom
         self.decided = {}        # canonical comparison -> truth value decided on this path
         self.const_atoms = {'pi': _math.pi}   # atoms that denote a fixed real number -> its float value
@@ -59,7 +60,7 @@ class Ctx:
         self.poly_lower = {}     # polynomial (without constant term) -> lower bound from an assumption
         self.poly_upper = {}
         self.max_decisions = 400
-        self.feas_timeout = 3000
+        self.feas_timeout = 2000
         self.labels = []
 
     def fresh(self, prefix):
@@ -880,7 +881,49 @@ def _factor_sign(p):
     return 'pos' if sgn > 0 else 'neg'
 
 
+def _pi_sign(x):
+    """sign of  s*alpha + k*pi  for an angle atom alpha with bounds that are multiples of pi"""
+    c = CTX
+    if not c.pibounds or not x.d.is_const() or len(x.n.t) not in (1, 2):
+        return None
+    dc = x.d.const_val()
+    k = Fr(0)
+    at = None
+    for m, co in x.n.t.items():
+        if m == (('pi', 1),):
+            k = co / dc
+        elif len(m) == 1 and m[0][1] == 1 and m[0][0] in c.pibounds and at is None:
+            at = (m[0][0], co / dc)
+        else:
+            return None
+    if at is None:
+        return None
+    klo, khi, slo, shi = c.pibounds[at[0]]
+    s_ = at[1]
+    # value = s_*alpha + k*pi ; alpha in [klo*pi, khi*pi]
+    if s_ > 0:
+        lo_k = None if klo is None else s_ * klo + k
+        hi_k = None if khi is None else s_ * khi + k
+        lo_strict, hi_strict = slo, shi
+    else:
+        lo_k = None if khi is None else s_ * khi + k
+        hi_k = None if klo is None else s_ * klo + k
+        lo_strict, hi_strict = shi, slo
+    if lo_k is not None and (lo_k > 0 or (lo_k == 0 and lo_strict)):
+        return 'pos'
+    if hi_k is not None and (hi_k < 0 or (hi_k == 0 and hi_strict)):
+        return 'neg'
+    if lo_k is not None and lo_k >= 0:
+        return 'nonneg'
+    if hi_k is not None and hi_k <= 0:
+        return 'nonpos'
+    return None
+
+
 def _interval_sign(x, factor=True):
+    ps = _pi_sign(x)
+    if ps is not None:
+        return ps
     """'pos'/'neg'/'nonneg'/'nonpos' from interval arithmetic on numerator (denominator constant or of known sign)"""
     c = CTX
     if c is None or not c.bounds and not c.poly_lower and not c.poly_upper:
@@ -951,12 +994,82 @@ def _known_sign(x):
 
 
 # --------------------------------------------------------------------------------------------
-def solver(timeout=10000, with_pc=True):
+_VARS_CACHE = {}
+
+
+def z3_vars(f):
+    """names of the uninterpreted constants of a z3 formula (cached by ast id)"""
+    k = f.get_id()
+    r = _VARS_CACHE.get(k)
+    if r is None:
+        r = set()
+        seen = set()
+        stack = [f]
+        while stack:
+            e = stack.pop()
+            i = e.get_id()
+            if i in seen:
+                continue
+            seen.add(i)
+            if z3.is_const(e) and e.decl().kind() == z3.Z3_OP_UNINTERPRETED:
+                r.add(e.decl().name())
+            else:
+                stack.extend(e.children())
+        if len(_VARS_CACHE) > 200000:
+            _VARS_CACHE.clear()
+        _VARS_CACHE[k] = r
+    return r
+
+
+def def_closure(names):
+    """the given atoms plus every atom their definitions mention (transitively)"""
+    out = set(names)
+    work = list(names)
+    while work:
+        nm = work.pop()
+        d = CTX.defs.get(nm)
+        if not d:
+            continue
+        for a in d[1:]:
+            vs = ()
+            if isinstance(a, SReal):
+                vs = a.vars()
+            elif isinstance(a, tuple):
+                vs = [v for v, _e in a if isinstance(v, str)]
+            for v in vs:
+                if v not in out:
+                    out.add(v)
+                    work.append(v)
+        if nm[:2] in ('s_', 'c_'):
+            for other in ('s_' + nm[2:], 'c_' + nm[2:]):
+                if other in CTX.defs and other not in out:
+                    out.add(other)
+                    work.append(other)
+    return out
+
+
+def solver(timeout=10000, with_pc=True, relevant=None):
+    """relevant: set of atom names; only facts all of whose variables lie in the definitional closure of that set are
+    included (dropping true facts is sound: it can only make the solver answer unknown/sat where it could have said
+    unsat; the caller retries with all facts)"""
     s = z3.Solver()
     s.set('timeout', int(timeout))
     s._pv_timeout = int(timeout)
-    for f in CTX.facts:
-        s.add(f)
+    if relevant is not None:
+        rel = set(relevant)
+        if with_pc:
+            for _, zf, _l in CTX.pc:
+                rel |= z3_vars(zf)
+        for f in CTX.assume:
+            rel |= z3_vars(f)
+        rel = def_closure(rel)
+        rel.add('pi')
+        for f in CTX.facts:
+            if z3_vars(f) <= rel:
+                s.add(f)
+    else:
+        for f in CTX.facts:
+            s.add(f)
     for f in CTX.assume:
         s.add(f)
     if with_pc:
@@ -988,6 +1101,11 @@ def check(s, hard_ms=None):
 
 
 def feasible(f):
+    # cheap attempt with the facts relevant to the condition only: unsat there is unsat with all facts
+    s = solver(max(500, CTX.feas_timeout // 3), relevant=z3_vars(f))
+    s.add(f)
+    if check(s) == z3.unsat:
+        return False
     s = solver(CTX.feas_timeout)
     s.add(f)
     return check(s) != z3.unsat   # unknown counts as feasible (sound)
@@ -1002,6 +1120,34 @@ def assume(b):
     CTX.assume.append(b.z3())
     CTX.assume_sb.append(b)
     _record_bound(b)
+
+
+def _circle_partner(v):
+    """|sin| >= L  =>  |cos| <= sqrt(1 - L^2)  (and vice versa), for v an abs atom of a sin/cos atom or the atom itself"""
+    try:
+        d = CTX.defs.get(v)
+        x = v
+        if d is not None and d[0] == 'abs':
+            a = d[1]
+            if not (a.d.is_const() and a.n.is_monomial()):
+                return
+            (m, k), = a.n.t.items()
+            if len(m) != 1 or m[0][1] != 1 or abs(k / a.d.const_val()) != 1:
+                return
+            x = m[0][0]
+            L = CTX.bounds[v][0]
+        else:
+            lo, hi = CTX.bounds[v]
+            L = lo if lo is not None and lo > 0 else (-hi if hi is not None and hi < 0 else None)
+        dx = CTX.defs.get(x)
+        if dx is None or dx[0] not in ('sin', 'cos') or L is None or L <= 0 or L > 1:
+            return
+        partner = ('c_' if dx[0] == 'sin' else 's_') + x[2:]
+        B = _fsqrt_hi(1 - L * L)
+        lo, hi = CTX.bounds.get(partner, (Fr(-1), Fr(1)))
+        CTX.bounds[partner] = (max(lo if lo is not None else -B, -B), min(hi if hi is not None else B, B))
+    except Exception:
+        pass
 
 
 def _record_bound(b):
@@ -1051,6 +1197,7 @@ def _record_bound(b):
             else:
                 hi = bound if hi is None else min(hi, bound)
             CTX.bounds[v] = (lo, hi)
+            _circle_partner(v)
 
 
 # ---- inputs --------------------------------------------------------------------------------
@@ -1536,6 +1683,17 @@ def _reg_angle(prefix, kind, args, s, c, lo=None, hi=None, lo_strict=False, hi_s
         F.append(z > lo.z3() if lo_strict else z >= lo.z3())
     if hi is not None:
         F.append(z < hi.z3() if hi_strict else z <= hi.z3())
+    # bounds that are rational multiples of pi are kept symbolically (alpha + pi >= 0 is decided without a solver)
+    def _pik(x):
+        if x is None or not x.d.is_const():
+            return None
+        p_ = x.n.scale(1 / x.d.const_val())
+        if p_.is_zero():
+            return Fr(0)
+        if len(p_.t) == 1 and (('pi', 1),) in p_.t:
+            return p_.t[(('pi', 1),)]
+        return None
+    CTX.pibounds[nm] = (_pik(lo), _pik(hi), lo_strict, hi_strict)
     try:
         bl = poly_interval(lo.n.scale(1 / lo.d.const_val()))[0] if lo is not None and lo.d.is_const() else None
         bh = poly_interval(hi.n.scale(1 / hi.d.const_val()))[1] if hi is not None and hi.d.is_const() else None
@@ -1913,8 +2071,13 @@ def _is_threshold(b):
     q, c0 = _split_const(p)
     if q.is_zero() or c0 == 0:
         return False
-    if b.a in ('<', '<='):
-        return 0 < -c0 <= Fr(1, 10 ** 6)         # q < -c0 , tiny positive
-    if b.a in ('>', '>='):
-        return 0 < c0 <= Fr(1, 10 ** 6)          # -q < c0
+    if b.a in ('<', '<=') and 0 < -c0 <= Fr(1, 10 ** 6):
+        return True                               # q < -c0 , tiny positive
+    if b.a in ('>', '>=') and 0 < c0 <= Fr(1, 10 ** 6):
+        return True                               # -q < c0
+    if b.a in ('<', '<=', '>', '>='):
+        # the test confines a bounded quantity to within 1e-6 of its bound (e.g. |sin p| > 1 - 10 eps)
+        lo, hi = poly_interval(q)
+        if lo is not None and hi is not None and hi - lo <= Fr(1, 10 ** 6):
+            return True
     return False
